@@ -426,6 +426,8 @@ impl DB {
             &mut db_fields_guard,
             || -> RainDBResult<Option<Vec<u8>>> {
                 let internal_key = InternalKey::new_for_seeking(key.to_vec(), snapshot);
+                #[cfg(feature = "verif")]
+                crate::verif::sched_point("get.unlocked");
 
                 // Check the memtable first
                 if let Ok(maybe_value) = self.memtable().get(&internal_key) {
@@ -1266,9 +1268,13 @@ impl DB {
                         // SAFETY: RainDB only allows one writer thread at a time.
                         (*self.wal().get()).append(&Vec::<u8>::from(&write_batch))?;
                     }
+                    #[cfg(feature = "verif")]
+                    crate::verif::sched_point("write.after_wal");
 
                     // Write the changes to the memtable
                     DB::apply_batch_to_memtable(&**self.memtable(), &write_batch);
+                    #[cfg(feature = "verif")]
+                    crate::verif::sched_point("write.after_memtable");
 
                     Ok(())
                 },
@@ -1565,6 +1571,8 @@ impl DB {
             );
             let value = batch_element.get_value().map_or(vec![], |val| val.to_vec());
             memtable.insert(internal_key, value);
+            #[cfg(feature = "verif")]
+            crate::verif::sched_point("memtable.after_insert");
 
             curr_sequence_num += 1;
         }
